@@ -497,6 +497,68 @@ fn case_bilinear<T: Elem>(case: u64, args: &Args, ev: &mut Ev, log: &mut EventLo
     });
 }
 
+/// "NotAKnot is the default at every level": splines configured through the `Default` impls
+/// (CubicSpline::default(), BoundaryCondition::default(), an `Individual` array created with
+/// `Array::default`, SingleBoundary::default() inside Mixed) must reproduce cubics, i.e. give
+/// exactly what the explicitly named NotAKnot spline gives, and the exact cubic within tolerance.
+fn default_boundaries(ev: &mut Ev) {
+    use vh::ndarray::Array2;
+    use vh::ndarray_interp::interp1d::cubic_spline::{BoundaryCondition, CubicSpline, RowBoundary, SingleBoundary};
+    use vh::ndarray_interp::interp1d::Interp1D;
+    let mut rng = Rng::derive(16, "C16-defaults", &[0]);
+    for round in 0..40u64 {
+        let n = 4 + rng.below(6);
+        let lanes = 1 + rng.below(3);
+        let mut pos = rng.irange(-8, 8) as f64 * 0.5;
+        let x: Array1<f64> = (0..n)
+            .map(|_| {
+                let v = pos;
+                pos += 0.25 * (1 + rng.below(8)) as f64;
+                v
+            })
+            .collect();
+        let coef: Vec<[f64; 4]> = (0..lanes).map(|_| [rng.irange(-8, 8) as f64 / 4.0, rng.irange(-8, 8) as f64 / 4.0, rng.irange(-8, 8) as f64 / 8.0, (1 + rng.below(6)) as f64 / 8.0]).collect();
+        let p = |l: usize, t: f64| ((coef[l][3] * t + coef[l][2]) * t + coef[l][1]) * t + coef[l][0];
+        let data = Array2::from_shape_fn((n, lanes), |(i, l)| p(l, x[i]));
+        let q: Array1<f64> = (0..24).map(|_| x[0] + rng.f01() * (x[n - 1] - x[0])).collect();
+        let explicit = Interp1D::builder(data.clone()).x(x.clone()).strategy(CubicSpline::new().boundary(BoundaryCondition::NotAKnot)).build().unwrap().interp_array(&q).unwrap();
+        let variants: Vec<(&str, Array2<f64>)> = vec![
+            ("CubicSpline::default()", Interp1D::builder(data.clone()).x(x.clone()).strategy(CubicSpline::default()).build().unwrap().interp_array(&q).unwrap()),
+            ("CubicSpline::new() (no boundary call)", Interp1D::builder(data.clone()).x(x.clone()).strategy(CubicSpline::new()).build().unwrap().interp_array(&q).unwrap()),
+            ("boundary(BoundaryCondition::default())", Interp1D::builder(data.clone()).x(x.clone()).strategy(CubicSpline::new().boundary(BoundaryCondition::default())).build().unwrap().interp_array(&q).unwrap()),
+            (
+                "Individual(Array2::<RowBoundary>::default((1, lanes)))",
+                Interp1D::builder(data.clone()).x(x.clone()).strategy(CubicSpline::new().boundary(BoundaryCondition::Individual(Array2::<RowBoundary<f64>>::default((1, lanes))))).build().unwrap().interp_array(&q).unwrap(),
+            ),
+            (
+                "Individual(Mixed(SingleBoundary::default(), SingleBoundary::default()))",
+                Interp1D::builder(data.clone())
+                    .x(x.clone())
+                    .strategy(CubicSpline::new().boundary(BoundaryCondition::Individual(Array2::from_shape_fn((1, lanes), |_| RowBoundary::Mixed { left: SingleBoundary::default(), right: SingleBoundary::default() }))))
+                    .build()
+                    .unwrap()
+                    .interp_array(&q)
+                    .unwrap(),
+            ),
+        ];
+        for (name, r) in variants {
+            ev.add("default_boundary_comparisons", 1);
+            let same = r.iter().zip(explicit.iter()).all(|(a, b)| a.to_bits() == b.to_bits());
+            // and the cubic itself, generously (the tight comparison is the bitwise one above)
+            let scale = data.iter().fold(1.0f64, |m, v| m.max(v.abs()));
+            let close = (0..q.len()).all(|k| (0..lanes).all(|l| (r[[k, l]] - p(l, q[k])).abs() <= 1e-9 * scale));
+            if !same || !close {
+                ev.violation(
+                    "C16:default-boundary-is-not-notaknot",
+                    &format!("{name}: cubic data on {:?} is {} (explicit NotAKnot: {:?} ..., this: {:?} ...)", x.to_vec(), if !close { "not reproduced" } else { "not identical to the explicit NotAKnot spline" }, &explicit.iter().take(3).collect::<Vec<_>>(), &r.iter().take(3).collect::<Vec<_>>()),
+                    9_800_000 + round,
+                    J::obj().set("variant", name),
+                );
+            }
+        }
+    }
+}
+
 fn main() {
     let args = Args::parse("C16");
     let n = args.budget(800, 150000);
@@ -511,6 +573,10 @@ fn main() {
             (_, true) => case_spline::<f32>(case, &args, ev, log),
         }
     });
+    let mut ev = ev;
+    if args.only.is_none() && args.shard == 0 {
+        default_boundaries(&mut ev);
+    }
     ev.finish(
         &args,
         "polynomials with small dyadic coefficients sampled exactly at dyadic knots: Linear<->affine, \
